@@ -1,6 +1,6 @@
 \* quick: all five kinds; every ordered pair of accepted URIs over
 \*   rsync: hosts {h.test, g.test} x {lower, Mixed} x module {m, n}
-\*   https: hosts {h.test, g.test, "..", ""} x case x port
+\*   https: hosts {h.test, "..", ""} x case x port
 \*   paths: <= 2 segments over {a, A, ""(trailing slash)}
 \* intended design (digest-named point files): all invariants hold.
 SPECIFICATION Spec
@@ -9,7 +9,7 @@ CONSTANTS
   Kinds = {"mft", "mftn", "ta", "tah", "notify"}
   Mode = "all"
   HostsR = {"h.test", "g.test"}
-  HostsH = {"h.test", "g.test", "..", ""}
+  HostsH = {"h.test", "..", ""}
   HCases = {"lower", "mixed"}
   SCases = {"lower"}
   Ports = {""}
